@@ -915,10 +915,8 @@ func (g *alignGen) run(a, b []byte, pm poolMat, strat string) {
 	}
 }
 
-func (g *alignGen) exhaustive(pool []poolMat) {
+func (g *alignGen) exhaustiveScope(pool []poolMat, alpha []byte, maxLen int) {
 	c := g.c
-	alpha := alphabetOf(c.Pick(2, 3))
-	maxLen := c.Pick(4, 5)
 	var seqs [][]byte
 	allStrings(alpha, maxLen, func(s []byte) { seqs = append(seqs, s) })
 	for _, pm := range pool {
@@ -929,6 +927,23 @@ func (g *alignGen) exhaustive(pool []poolMat) {
 		}
 	}
 	c.Exhaustive(fmt.Sprintf("all pairs of sequences over %q of length <= %d x %d matrices", alpha, maxLen, len(pool)))
+}
+
+// exhaustive: quick: {a,b}, length <= 4, the whole pool. thorough: {a,b,c},
+// length <= 4, the whole pool, and length <= 5 with every fifth matrix of it.
+func (g *alignGen) exhaustive(pool []poolMat) {
+	if !g.c.Thorough() {
+		g.exhaustiveScope(pool, alphabetOf(2), 4)
+		return
+	}
+	g.exhaustiveScope(pool, alphabetOf(3), 4)
+	var sub []poolMat
+	for i, pm := range pool {
+		if i%5 == 0 {
+			sub = append(sub, pm)
+		}
+	}
+	g.exhaustiveScope(sub, alphabetOf(3), 5)
 }
 
 // random: lengths to 60, alphabets to 6, a fresh random matrix per case.
@@ -1007,7 +1022,7 @@ func shippedCases(c *Ctx, n int) {
 }
 
 func init() {
-	registerProp("C08", "exhaustive: all pairs of sequences over {a,b} of length <= 4 (thorough: {a,b,c}, <= 5) x a pool of 40 integer matrices (symmetric and asymmetric, gap-open -3..3; Local on the ones with non-positive gap scores), through Global and Local; random: lengths to 60, alphabets of 1..6 letters, a fresh random matrix per case; every shipped matrix (and Levenshtein) with random protein strings to 200 (model for lengths <= 40); empty sequences; matrices with a missing pair (panic stream). Oracle: independent re-scorer of the returned steps, consumption / offsets, nil-iff-no-positive-pair, inputs unchanged, no panic. non-trivial = both sequences of length >= 2", func(c *Ctx) {
+	registerProp("C08", "exhaustive: all pairs of sequences over {a,b} of length <= 4 (thorough: {a,b,c} <= 4, and <= 5 with every fifth matrix) x a pool of 40 integer matrices (symmetric and asymmetric, gap-open -3..3; Local on the ones with non-positive gap scores), through Global and Local; random: lengths to 60, alphabets of 1..6 letters, a fresh random matrix per case; every shipped matrix (and Levenshtein) with random protein strings to 200 (model for lengths <= 40); empty sequences; matrices with a missing pair (panic stream). Oracle: independent re-scorer of the returned steps, consumption / offsets, nil-iff-no-positive-pair, inputs unchanged, no panic. non-trivial = both sequences of length >= 2", func(c *Ctx) {
 		g := &alignGen{c: c, kGlobal: kAlignGlobalV, kLocal: kAlignLocalV, localNeedsNonpos: true}
 		pool := c.basePool(alphabetOf(3))
 		g.exhaustive(pool)
@@ -1039,7 +1054,7 @@ func init() {
 		}
 	})
 
-	registerProp("C09", "gap-open = 0. exhaustive: all pairs over {a,b} of length <= 4 (thorough: {a,b,c}, <= 5) x the zero-gap-open variants of the matrix pool (any sign of the gap scores), through Global and Local; random: lengths to 60, alphabets to 6; every shipped PAM/BLOSUM matrix with random protein strings to 200 and Levenshtein over random byte strings 0..254 (model for lengths <= 40), arguments swapped; sweep of all 6 x 576 + 65,536 shipped entries. Oracle: score == optimum of an independent three-state DP (cross-checked against enumeration of all alignments for |a|+|b| <= 9, Local <= 7), Local == best over all substring pairs, Levenshtein == -(edit distance). non-trivial = both sequences of length >= 2", func(c *Ctx) {
+	registerProp("C09", "gap-open = 0. exhaustive: all pairs over {a,b} of length <= 4 (thorough: {a,b,c} <= 4, and <= 5 with every fifth matrix) x the zero-gap-open variants of the matrix pool (any sign of the gap scores), through Global and Local; random: lengths to 60, alphabets to 6; every shipped PAM/BLOSUM matrix with random protein strings to 200 and Levenshtein over random byte strings 0..254 (model for lengths <= 40), arguments swapped; sweep of all 6 x 576 + 65,536 shipped entries. Oracle: score == optimum of an independent three-state DP (cross-checked against enumeration of all alignments for |a|+|b| <= 9, Local <= 7), Local == best over all substring pairs, Levenshtein == -(edit distance). non-trivial = both sequences of length >= 2", func(c *Ctx) {
 		sweepShipped(c)
 		g := &alignGen{c: c, kGlobal: kAlignGlobal, kLocal: kAlignLocal}
 		var pool []poolMat
@@ -1075,7 +1090,7 @@ func init() {
 		shippedCases(c, c.Pick(210, 2100))
 	})
 
-	registerProp("C10", "gap-open != 0, non-positive gap scores. The corpus holds the two witnesses of known finding D7 as strict cases (kinds align_global / align_local: score == affine optimum, which they fail). Generated cases use the _v kinds: model == implementation (pins the implementation to the single-state recurrence whose non-optimality is proved) and linear-gap optimum <= score <= affine optimum, returned steps re-scored. exhaustive: all pairs over {a,b} of length <= 4 (thorough: {a,b,c}, <= 5) x the pool matrices with non-positive gap scores and gap-open in {-3,-2,-1} (Global also {1,2}); random: lengths to 60, alphabets to 6. non-trivial = both sequences of length >= 2", func(c *Ctx) {
+	registerProp("C10", "gap-open != 0, non-positive gap scores. The corpus holds the two witnesses of known finding D7 as strict cases (kinds align_global / align_local: score == affine optimum, which they fail). Generated cases use the _v kinds: model == implementation (pins the implementation to the single-state recurrence whose non-optimality is proved) and linear-gap optimum <= score <= affine optimum, returned steps re-scored. exhaustive: all pairs over {a,b} of length <= 4 (thorough: {a,b,c} <= 4, and <= 5 with every fifth matrix) x the pool matrices with non-positive gap scores and gap-open in {-3,-2,-1} (Global also {1,2}); random: lengths to 60, alphabets to 6. non-trivial = both sequences of length >= 2", func(c *Ctx) {
 		g := &alignGen{c: c, kGlobal: kAlignGlobalV, kLocal: kAlignLocalV, localNeedsNonpos: true}
 		var pool []poolMat
 		seen := map[string]bool{}
